@@ -86,10 +86,18 @@ package taint
 // C02 (sanitizer half) / C01: one iteration of the traversal's main loop. Events are
 // local to the iteration (reset at the loop head).
 //  - a node that matches a sanitizer is not expanded: no successor is enqueued;
-//  - a node that is filtered out is not expanded either, and is not reported.
+//  - a node that is filtered out is not expanded either, and is not reported;
+//  - a node that matches a sink while tracing is reported (addNewPathCandidate) and
+//    not expanded;
+//  - C05: unless summaries may be ignored, a write to a global makes the traversal
+//    look for the functions reading it (ReachableFunctions scan that builds their
+//    summaries) whatever the summarisation mode -- a global-access node that is not
+//    a read (its out-edges are not followed) has run that scan.
 //@ func Visitor.Visit
-//@   property C02 C01
+//@   property C02 C01 C05
 //@   option havoc:*
 //@   requires v != nil && s != nil
 //@   loop 1 body sanitizer_stops: called(isSanitizer, _, _, _) && retof(isSanitizer, _, _, _) ==> !called(addNext, _, _, _, _, _, _, _, _)
+//@   loop 1 body sink_reported: called(isSink, _, _, _) && retof(isSink, _, _, _) && cur.Status.Kind == dataflow.DefaultTracing ==> called(addNewPathCandidate, _, _, _) && !called(addNext, _, _, _, _, _, _, _, _)
+//@   loop 1 body global_readers_summarised: istype(cur.Node, *dataflow.AccessGlobalNode) && called(isSanitizer, _, _, _) && !retof(isSanitizer, _, _, _) && !ignoreNonSummarized ==> called(ReachableFunctions, _) || called(AccessGlobalNode.Out, _)
 //@   loop 1 body filtered_not_reported: called(isFiltered, _, _, _) && retof(isFiltered, _, _, _) ==> !called(addNext, _, _, _, _, _, _, _, _) && !called(addNewPathCandidate, _, _, _)
